@@ -170,6 +170,8 @@ type Call struct {
 	ReplicaBefore gen.J
 	WallNS        int64
 	pre           *preCall
+	defs          map[assets.FlowUUID]*defFlow
+	ClockTick     time.Duration
 	hostCarried   bool // the trigger/resume carried the host's contact row and the engine applied it
 }
 
@@ -318,7 +320,7 @@ func NewWorld(t *sim.Tape, cfg *Config) (*World, error) {
 		}
 	}
 	if !cfg.NoRecorders {
-		w.rec = installRecorders()
+		w.rec = installRecorders(w.Seams.Clock)
 	}
 
 	// contacts
